@@ -18,9 +18,9 @@ func verifC09_close() {
 		return f
 	}
 	state := vChoose("state", 6)
-	peer := vChoose("peer", 6)
+	peer := vChoose("peer", 7)
 	stateName := []string{"idle", "message-half-read", "reader-blocked", "closeread-active", "writer-blocked", "after-protocol-error"}[state]
-	peerName := []string{"silent", "stalls-inside-frame", "floods-data-never-closes", "never-reads", "eof", "control-frame-then-partial-header"}[peer]
+	peerName := []string{"silent", "stalls-inside-frame", "floods-data-never-closes", "never-reads", "eof", "control-frame-then-partial-header", "stalls-inside-control-frame"}[peer]
 	vClassify("state", stateName)
 	vClassify("peer", peerName)
 	var wire []byte
@@ -35,6 +35,15 @@ func verifC09_close() {
 	switch peer {
 	case 1:
 		f := vEncodeFrame(mk(vFrame{fin: state != 1, opcode: uint8(vIteInt(state == 1, 0, 2)), payload: vBytes("m", 4)}))
+		k := 1 + vChoose("stallAt", len(f)-1)
+		wire = append(wire, f[:k]...)
+	case 6:
+		// a Close frame (or a Ping) of which only a part arrives: cut anywhere after its first byte, also inside the payload
+		cf := mk(vFrame{fin: true, opcode: 8, payload: []byte{0x03, 0xe8, 'o', 'k'}})
+		if vChoose("stalledControl", 2) == 1 {
+			cf = mk(vFrame{fin: true, opcode: 9, payload: vBytes("m", 3)})
+		}
+		f := vEncodeFrame(cf)
 		k := 1 + vChoose("stallAt", len(f)-1)
 		wire = append(wire, f[:k]...)
 	case 5:
